@@ -561,7 +561,7 @@ def subchecks(tier, seed):
     pe = ["model_matrix", "ModelSpec.get_model_matrix(**overrides)", "model_matrix(matrix, **overrides)", "PandasMaterializer.get_model_matrix",
           "model_matrix(spec, **overrides)", "PandasMaterializer.get_model_matrix(matrix, **overrides)"]
     return [
-        Sub("drop-core", drv_core, {"n": n, "formulas": allf, "dropsets": ["none", "{0}", "{0,2}"] if quick else list(DROPSETS)},
+        Sub("drop-core", drv_core, {"n": n, "formulas": allf, "dropsets": ["none", "{0,2}"] if quick else list(DROPSETS)},
             shard_depth=3, bounds={"rows": n, "null_patterns": "all 2^(2n) over a, A; <=1 null in y", "index_kinds": list(INDEXES), "formulas": allf}),
         Sub("drop-entries", drv_entries, {"n": 3, "formulas": allf, "max_nulls": 1 if quick else 2}, shard_depth=3,
             bounds={"rows": 3, "null_patterns": "<= %d nulls over a, A; <= 1 in y" % (1 if quick else 2), "entries": ENTRIES,
